@@ -9,4 +9,5 @@ for p in $(.venv/bin/python -c "import json;print(' '.join(c['property_id'] for 
   [ $e -ne 0 ] && rc=1
 done
 .venv/bin/python tools_validate.py >/dev/null || { echo "EVIDENCE INVALID"; rc=1; }
+.venv/bin/python tools/conformance.py --cases 6 | tail -1 | grep -q "CONFORMANCE ok" || { echo "NUMPY CONTRACT CONFORMANCE FAILED"; rc=1; }
 exit $rc
